@@ -305,6 +305,7 @@ func main() {
 		o.add("")
 	}
 
+	emitSpan(o, pkgs) // C16: span allocator constants (external module) and thrift's span size
 	text := strings.Join(o.lines, "\n") + "\n"
 	if *outDir != "" {
 		fn := filepath.Join(*outDir, "Consts.v")
@@ -428,5 +429,62 @@ func emitVar(o *out, p *packages.Package, short, name string, val ast.Expr) {
 			return
 		}
 		o.add("Definition %s_%s : Z * Z * string := (%d%%Z, %s, %s). (* kind 1=transport 2=protocol 3=application, type id, message *)", short, name, kind, z, coqString(constant.StringVal(a1.Value)))
+	}
+}
+
+// emitSpan prints (C16) the argument of thrift's `spanCache = span.NewSpanCache(<const>)`, the
+// initial value of spanCacheEnable, and the package-level constants of the external package
+// github.com/bytedance/gopkg/lang/span (size classes of the bump allocator), which is loaded
+// from source as a dependency of protocol/thrift.
+func emitSpan(o *out, pkgs []*packages.Package) {
+	const spanPath = "github.com/bytedance/gopkg/lang/span"
+	for _, p := range pkgs {
+		if pkgShort[p.PkgPath] != "thrift" {
+			continue
+		}
+		o.add("(* ---- span allocator used by %s ---- *)", p.PkgPath)
+		for _, f := range p.Syntax {
+			for _, d := range f.Decls {
+				gd, ok := d.(*ast.GenDecl)
+				if !ok || gd.Tok != token.VAR {
+					continue
+				}
+				for _, s := range gd.Specs {
+					vs := s.(*ast.ValueSpec)
+					for i, name := range vs.Names {
+						if i >= len(vs.Values) {
+							continue
+						}
+						switch name.Name {
+						case "spanCache":
+							if ce, ok := vs.Values[i].(*ast.CallExpr); ok && len(ce.Args) == 1 {
+								if sel, ok := ce.Fun.(*ast.SelectorExpr); ok && sel.Sel.Name == "NewSpanCache" {
+									if z, ok := coqZ(p.TypesInfo.Types[ce.Args[0]].Value); ok {
+										o.add("Definition thrift_spanCache_size : Z := %s.", z)
+									}
+								}
+							}
+						case "spanCacheEnable":
+							if z, ok := coqZ(p.TypesInfo.Types[vs.Values[i]].Value); ok {
+								o.add("Definition thrift_spanCacheEnable_init : Z := %s.", z)
+							}
+						}
+					}
+				}
+			}
+		}
+		if sp := p.Imports[spanPath]; sp != nil && sp.Types != nil {
+			scope := sp.Types.Scope()
+			names := scope.Names()
+			sort.Strings(names)
+			for _, n := range names {
+				if c, ok := scope.Lookup(n).(*types.Const); ok {
+					if z, ok := coqZ(c.Val()); ok {
+						o.add("Definition span_%s : Z := %s.", n, z)
+					}
+				}
+			}
+		}
+		o.add("")
 	}
 }
